@@ -212,7 +212,7 @@ def run(prop, tier, seed, replay=None):
         models.append(dict(cfg=check_cfg, states=m.distinct, transitions=m.generated, depth=m.depth, wall_s=round(m.wall, 1)))
         cover.update(m.coverage)
         # 2. behaviours from the permissive model -> real code
-        n_exh, n_sim = (200, 120) if quick else (2000, 1200)
+        n_exh, n_sim = (200, 120) if quick else (1200, 800)
         if len(FAMILY[prop]) > 1 and fam != FAMILY[prop][0]:
             n_exh, n_sim = n_exh // 2, n_sim // 2
         g, n_wit, chosen, sim = generate(gen_cfg, seed, n_exh, n_sim, timeout=3000)
@@ -234,7 +234,7 @@ def run(prop, tier, seed, replay=None):
         for base in bases:
             part = scripts if (base == 0 or not quick) else scripts[::3]
             inp = dict(universe=uni, base=base, subs=[SUBS[s] for s in subs], scripts=part, props=props)
-            rs = vlib.run_driver_parallel(binary, inp)
+            rs = vlib.run_driver_parallel(binary, inp, shards=(None if quick else 14), timeout=(420 if quick else 2400))
             for r in rs:
                 r["base"] = base
                 r["input"] = dict(universe=uni, base=base, subs=[SUBS[s] for s in subs], props=props)
